@@ -2,7 +2,7 @@
 # usage: tools/mutant.sh <patch.diff | revert:<commit>> <PID> [PID...]   -- applies a property-breaking change to /repo's
 # working tree, runs the quick checks, and ALWAYS restores the tree.  Prints DETECTED/MISSED per property.
 set -u
-P="$1"; shift
+P="$1"; shift; case "$P" in revert:*) ;; /*) ;; *) P="$(pwd)/$P";; esac
 cd /repo || exit 2
 if ! git diff --quiet; then echo "repo working tree is dirty; refusing"; exit 2; fi
 if [[ "$P" == revert:* ]]; then
